@@ -9,7 +9,7 @@ LEVEL = "exploration"
 RULE = ("Stack trees (depth <= 4, width <= 3) built with the public constructors over a pool of 12 real frames: contexts "
         "with every combination of obj / varname / start_line (absent, valid, beyond the file) / description present or "
         "absent, is_async, is_exiting, hide; inner stacks; children mixing child contexts, stub child stacks and populated "
-        "child stacks with/without root; leaf; error (single exception or group, constructed or really raised through nested calls, multi-line message, raised group with a raised member, chained with __cause__); frame hide / hide_line / lineno 0; all names "
+        "child stacks with/without root; leaf; error (single exception or group, constructed or really raised through nested calls, multi-line message, raised group with a raised member, chained with __cause__); frame hide / hide_line / lineno 0 / no line at all (Frame.lineno None, as for a frame between lines on 3.10+); the multi-line error message contains every kind of line boundary (\\n, \\r, \\f, \\x1c, and U+2028 / \\x85 in the non-ASCII trees); all names "
         "and texts ASCII tokens made unique per element (a quarter of the trees with multi-line descriptions and multi-line reprs of root / leaf, a quarter with descriptions and reprs that are not ASCII - none of the marker characters). Each tree is formatted in all 8 option combinations on CPython "
         "3.9-3.12. Oracle: (1) every element of format() ends with exactly one newline, str(x) is their concatenation (also for "
         "Frame and Context); (2) round trip: a recursive-descent reader of the box-drawing prefixes rebuilds the tree (frames "
